@@ -75,7 +75,8 @@ def c17(pid, tier, seed, selftest=False):
     return rep.finish()
 
 
-PASSWORDS = ["", "61", "70c3a4c39f776f7264e29c93", "00", "ff" * 65, "41" * 200]
+# incl. the lengths around the block size of the HMAC inside the key derivation (63, 64, 65 bytes)
+PASSWORDS = ["", "61", "70c3a4c39f776f7264e29c93", "00", "ff" * 65, "41" * 200, "42" * 63, "43" * 64, "6b" * 32 + "2d" * 32]
 
 
 def hmac_key(pw):
